@@ -246,6 +246,11 @@ def Rep.chainOf (a b : Rep) (len0 : Nat) : Rep :=
   | _, .chain parts1 mids1 => .chain (a :: parts1) (len0 :: mids1.map (· + len0))
   | _, _ => .chain [a, b] [len0]
 
+/-- the finite parts in front of the infinite last part of a chain (its last midpoint); 0 for other shapes -/
+def Rep.finPrefix : Rep → Nat
+  | .chain _ mids => mids.getLast?.getD 0
+  | _ => 0
+
 /-- `XSequence::chain` (sequence.rs:221-298); after the fix the total length is checked against `usize` -/
 def Rep.mkChain (a b : Rep) : ChainR :=
   match a.len, b.len with
@@ -261,7 +266,9 @@ def Rep.mkChain (a b : Rep) : ChainR :=
     match b.len with
     | .panic m => .panic m
     | lb =>
-    if (match lb with | .fin len1 => decide (len0 + len1 ≥ USIZE) | _ => false) then .err "sequence is too long" else
+    if (match lb with
+        | .fin len1 => decide (len0 + len1 ≥ USIZE)
+        | _ => decide (len0 + b.finPrefix ≥ USIZE)) then .err "sequence is too long" else
     .new (Rep.chainOf a b len0)
 
 /-- `seq.iter(..)` restricted to `count` elements from `start`, collected with
@@ -289,6 +296,10 @@ inductive V where
   | val (v : Val)
   | bool (b : Bool)
   | opt (o : Option Val)
+  /-- an `XStack`, bottom first -/
+  | stack (vs : List Val)
+  /-- a value the model does not compute (operations outside the modelled fragment) -/
+  | opaque
   | err (msg : String)
   | panic (msg : String)
   deriving Repr, Inhabited
@@ -477,28 +488,32 @@ def enumerateB (r : Rep) (start offset : Int) : V := zipB [count2 start offset, 
 /-- `unzip()::item<i>` (sequence.rs:1689-1730) -/
 def unzipB (r : Rep) (i : Nat) : V := .seq (.map r (.proj i))
 
-/-- `reverse` (include.rs:534-537) -/
-def reverseB (r : Rep) : V :=
-  match lenB r with
-  | .val (.int offset) =>
-    (match rangeB [offset] with
-     | .seq rg => .seq (.mapGet rg r (.rev offset))
-     | v => v)
+/-- `reverse` (include.rs:534-537): `let offset = a.len(); range(offset).map(idx -> a[offset-1-idx])`; an
+erroring `a.len()` makes `range(offset)` that error -/
+def reverseOf (r : Rep) (n : Nat) (rg : V) : V :=
+  match rg with
+  | .seq rg => .seq (.mapGet rg r (.rev n))
   | v => v
 
-/-- `repeat(a)` (include.rs:518-524) -/
+def reverseB (r : Rep) : V :=
+  match r.len with
+  | .panic m => .panic m
+  | .inf => infErr
+  | .fin n => reverseOf r n (rangeB [(n : Int)])
+
+/-- `repeat(a)` (include.rs:518-524): `if(is_error(a.len()), a, count().map(idx -> a[idx%length]))` -/
 def repeatB (r : Rep) : V :=
-  match lenB r with
-  | .val (.int length) => .seq (.mapGet .count r (.mod length))
-  | .err _ => .seq r
-  | v => v
+  match r.len with
+  | .panic m => .panic m
+  | .inf => .seq r
+  | .fin n => .seq (.mapGet .count r (.mod n))
 
 /-- `repeat(a, n)` (include.rs:526-532), also `mul` (include.rs:1379-1381) -/
-def repeatNB (r : Rep) (n : Int) : V :=
-  match lenB r with
-  | .val (.int length) => takeB (.mapGet .count r (.mod length)) (n * length)
-  | .err _ => .seq r
-  | v => v
+def repeatNB (r : Rep) (k : Int) : V :=
+  match r.len with
+  | .panic m => .panic m
+  | .inf => .seq r
+  | .fin n => takeB (.mapGet .count r (.mod n)) (k * n)
 
 /-- first index `i ≥ from` (at most `fuel` steps) whose element fails (`stopOn = false`) / satisfies
 (`stopOn = true`) the predicate `x < c`; `none` = no such index below `limit` -/
@@ -535,6 +550,77 @@ def skipUntilLtB (r : Rep) (c : Int) (fuel : Nat) : V :=
     match scanLt r c true (lenOpt len) 0 fuel with
     | .ok (some i) => sliceB r i none
     | .ok none => sliceB r ((lenOpt len).getD 0) none
+    | .err m => .err m
+    | .panic m => .panic m
+
+
+/-! ## searching, comparison, conversion -/
+
+/-- the forward scan of `nth` (sequence.rs:1179-1231) with the predicate `(x:int)->{x < c}`: `left` matches are
+still to be skipped; `limit` = length of a finite sequence -/
+def nthFwd (r : Rep) (c : Int) (limit : Option Nat) : Nat → Nat → Nat → V
+  | _, _, 0 => .panic "out of fuel"
+  | i, left, fuel + 1 =>
+    if (match limit with | some n => decide (i ≥ n) | none => false) then .opt none else
+    match r.get i with
+    | .ok (.int x) =>
+        if x < c then (if left = 0 then .opt (some (.int x)) else nthFwd r c limit (i + 1) (left - 1) fuel)
+        else nthFwd r c limit (i + 1) left fuel
+    | .ok (.tup _) => .panic "to_primitive: not an int"
+    | .err m => .err m
+    | .panic m => .panic m
+
+/-- the reversed scan (`diter().rev()`): elements `k-1, k-2, …, 0` -/
+def nthBwd (r : Rep) (c : Int) : Nat → Nat → V
+  | 0, _ => .opt none
+  | k + 1, left =>
+    match r.get k with
+    | .ok (.int x) =>
+        if x < c then (if left = 0 then .opt (some (.int x)) else nthBwd r c k (left - 1))
+        else nthBwd r c k left
+    | .ok (.tup _) => .panic "to_primitive: not an int"
+    | .err m => .err m
+    | .panic m => .panic m
+
+/-- `nth(s, n, (x:int)->{x < c})`; `first` = `nth(0, ·)`, `last` = `nth(-1, ·)` (include.rs:461-467) -/
+def nthLtB (r : Rep) (n : Int) (c : Int) (fuel : Nat) : V :=
+  match r.len with
+  | .panic m => .panic m
+  | len =>
+    if n < 0 then
+      (match len with
+       | .fin k => nthBwd r c k (-n - 1).toNat
+       | _ => .err "negative match index cannot be used with infinite sequence")
+    else nthFwd r c (lenOpt len) 0 n.toNat fuel
+
+/-- element-wise comparison loop of the dynamic `eq` (sequence.rs:1420-1482) -/
+def eqScan (a b : Rep) (limit : Option Nat) : Nat → Nat → V
+  | _, 0 => .panic "out of fuel"
+  | i, fuel + 1 =>
+    if (match limit with | some n => decide (i ≥ n) | none => false) then .bool true else
+    match a.get i with
+    | .err m => .err m
+    | .panic m => .panic m
+    | .ok x =>
+      match b.get i with
+      | .err m => .err m
+      | .panic m => .panic m
+      | .ok y => if x == y then eqScan a b limit (i + 1) fuel else .bool false
+
+/-- `eq` of two sequences -/
+def eqB (a b : Rep) (fuel : Nat) : V :=
+  match a.len, b.len with
+  | .panic m, _ => .panic m
+  | _, .panic m => .panic m
+  | la, lb => if la == lb then eqScan a b (lenOpt la) 0 fuel else .bool false
+
+/-- `to_stack` (sequence.rs:888-908) -/
+def toStackB (r : Rep) : V :=
+  match r.len with
+  | .panic m => .panic m
+  | .inf => infErr
+  | .fin n => match r.collect n with
+    | .ok vs => .stack vs
     | .err m => .err m
     | .panic m => .panic m
 
